@@ -93,7 +93,12 @@ var evalFunctions = map[string]govaluate.ExpressionFunction{
 		if len(args) == 0 {
 			return nil, nil
 		}
-		return sortArray(args), nil
+		// Sort a copy: the argument list may share its backing array with
+		// a variable (the expression evaluator appends to it in place),
+		// and sortArray returns its argument as is when no swap is needed.
+		cp := make([]interface{}, len(args))
+		copy(cp, args)
+		return sortArray(cp), nil
 	},
 
 	// Sum of array. nil if no values.
